@@ -75,6 +75,23 @@ def _strlen(e: ast.AST, env: Dict[str, List[ast.AST]]) -> Optional[Lin]:
             inner = _strlen(arg, env)
             if inner is not None:
                 return _lin_add({"": len(fmt) - 2}, inner)
+    # f"...{x}...": the literal pieces plus the lengths of the plain (unformatted, unconverted) fields
+    if isinstance(e, ast.JoinedStr):
+        total: Lin = {"": 0}
+        for v in e.values:
+            if isinstance(v, ast.Constant) and isinstance(v.value, str):
+                part = {"": len(v.value)}
+            elif isinstance(v, ast.FormattedValue) and v.conversion == -1 and v.format_spec is None:
+                part = _strlen(v.value, env)
+            else:
+                part = None
+            if part is None:
+                return None
+            total = _lin_add(total, part)
+        return total
+    # a local of the function bound once to a string expression
+    if isinstance(e, ast.Name) and len(env.get(e.id, [])) == 1:
+        return _strlen(env[e.id][0], env)
     return None
 
 
